@@ -246,6 +246,20 @@ class SymH:
         if nonlinear is not None:
             self.ex.defer_nonlinear = nonlinear == "defer"
 
+    def track_int64(self, on=True):
+        self.ex.track_int64 = on
+
+    def check_int64(self, name, assuming=True):
+        """every integer the code computed so far fits int64 (NumPy integers wrap silently) under `assuming`."""
+        lim = 2 ** 63
+        seen, conds = set(), []
+        for e in self.ex.int_results:
+            if e.get_id() in seen:
+                continue
+            seen.add(e.get_id())
+            conds.append(z3.And(e >= -lim, e < lim))
+        self.check(name, self.Implies(assuming, self.And(conds)) if conds else True)
+
     def cover(self, tag):
         self.ex.covers.add(tag)
 
@@ -416,6 +430,12 @@ class ConcH:
 
     def policy(self, **kw):
         pass
+
+    def track_int64(self, on=True):
+        pass
+
+    def check_int64(self, name, assuming=True):
+        self.checked.append(name)
 
     def cover(self, tag):
         pass
